@@ -22,12 +22,13 @@ type cg struct {
 	lists  []string
 	n      int
 	blocks []string
-	heads  map[string]int // head symbols produced (coverage)
-	bq     bool           // backquote templates allowed (avoid set: feature "backquote")
+	heads  map[string]int  // head symbols produced (coverage)
+	ro     map[string]bool // variables that must not be assigned (loop counters)
+	bq     bool            // backquote templates allowed (avoid set: feature "backquote")
 	bqUsed bool
 }
 
-func newCG(r *rand.Rand) *cg { return &cg{r: r, heads: map[string]int{}} }
+func newCG(r *rand.Rand) *cg { return &cg{r: r, heads: map[string]int{}, ro: map[string]bool{}} }
 
 var varPool = []string{"a", "b", "c", "d", "m", "n", "u", "v", "w", "x", "y", "z", "acc", "total", "item", "count", "left", "right"}
 
@@ -129,9 +130,11 @@ func (g *cg) Int(d int) string {
 		g.hd("return-from")
 		name := fmt.Sprintf("blk%d", g.r.IntN(100))
 		i := g.fresh()
+		g.ro[i] = true
+		final := g.Int(d)
 		return g.withInts([]string{i}, func() string {
 			return fmt.Sprintf("(block %s (dotimes (%s %s) (if %s (return-from %s %s))) %s)",
-				name, i, g.poslit(), g.Bool(d), name, g.Int(d), g.Int(d))
+				name, i, g.poslit(), g.Bool(d), name, g.Int(d), final)
 		})
 	case 13:
 		g.hd("length")
@@ -156,6 +159,7 @@ func (g *cg) Int(d int) string {
 		h := fw.Pick(g.r, []string{"do", "do*"})
 		g.hd(h)
 		i, acc := g.fresh(), g.fresh()
+		g.ro[i], g.ro[acc] = true, true
 		init := g.Int(d)
 		return g.withInts([]string{i, acc}, func() string {
 			return fmt.Sprintf("(%s ((%s 0 (1+ %s)) (%s %s (+ %s %s))) ((>= %s %s) %s))", h, i, i, acc, init, acc, g.Int(d-1), i, g.poslit(), acc)
@@ -170,6 +174,7 @@ func (g *cg) Int(d int) string {
 	case 19:
 		g.hd("dolist")
 		s, x := g.fresh(), g.fresh()
+		g.ro[s], g.ro[x] = true, true
 		l := g.List(d)
 		return g.withInts([]string{s, x}, func() string {
 			return fmt.Sprintf("(let ((%s 0)) (dolist (%s %s %s) (setq %s (+ %s %s))))", s, x, l, s, s, s, g.Int(d-1))
@@ -302,6 +307,7 @@ func (g *cg) List(d int) string {
 		g.hd("dolist")
 		g.hd("push")
 		acc, x := g.fresh(), g.fresh()
+		g.ro[x] = true
 		l := g.List(d)
 		return g.withInts([]string{x}, func() string {
 			return fmt.Sprintf("(let ((%s nil)) (dolist (%s %s (nreverse %s)) (when %s (push %s %s))))", acc, x, l, acc, g.Bool(d), g.Int(d), acc)
@@ -365,10 +371,16 @@ func (g *cg) Str(d int) string {
 
 // Stmt yields a form evaluated for effect on a local variable.
 func (g *cg) Stmt(d int) string {
-	v, ok := g.intVar()
-	if !ok {
+	var rw []string
+	for _, v := range g.ints {
+		if !g.ro[v] {
+			rw = append(rw, v)
+		}
+	}
+	if len(rw) == 0 {
 		return g.Int(d)
 	}
+	v := rw[g.r.IntN(len(rw))]
 	switch g.r.IntN(5) {
 	case 0:
 		g.hd("setq")
